@@ -39,7 +39,7 @@ ENCODING = [
     [1, 32, 64],
 ]
 
-VALID = rf"^{re.escape(MAGIC)}[{re.escape(''.join(NUM_ALPHA))}]{{4,}}\Z"
+VALID = rf"^{re.escape(MAGIC)}[{re.escape(''.join(NUM_ALPHA))}]+\Z"
 
 
 def juniper_decrypt(crypt: str) -> str:
@@ -56,6 +56,8 @@ def juniper_decrypt(crypt: str) -> str:
 
     chars = crypt[len(MAGIC) :]
     first, chars = _nibble(chars, 1)
+    if len(chars) < EXTRA[first]:
+        raise ValueError("Invalid Juniper crypt string!")
     _, chars = _nibble(chars, EXTRA[first])
 
     prev = first
